@@ -41,6 +41,15 @@ CHECKS = {
  "C20": ("Lean theorems over a presence model of the configuration: validate c -> startsOK c (every section dereferenced at start-up is guaranteed), rejection of unknown service names / bad scheme / missing mandatory sections / https without TLS; the valid: tags the model relies on are regenerated from the compiled types and compared by decide. Every variant (baseline, all single and pairwise removals of 20 items x http/https, scheme and service-list alterations; thorough: all triples) is validated and, if accepted, really started in its own process.",
          "Trusted: Lean kernel; govalidator/yaml semantics modelled; startsOK is hand-modelled from reading the start-up code and validated by starting every accepted variant.",
          "Lean 4 proof over a finite-presence model + regenerated tags (decide) + correspondence + start-up oracle", "DESIGN.md §5 C20"),
+ "C04": ("Lean theorem C04 (marshal.mutual_induct, unbounded nesting/lengths): whatever the encoder model returns equals the output of an independent X.690 encoder (Spec/X690.lean) for every type description, parameter set and int64-valued value; C04_no_panic / C04_schema: marshalling never panics for any type whose OPTIONAL members are nil-able, which decide +kernel establishes for all 195 regenerated cdrType descriptions; integer minimality, BOOLEAN, BIT STRING unused bits, OPTIONAL omission proved separately. Every marshalled value of the run is also walked by the Lean X.690 well-formedness checker and compared with the reference encoder.",
+         "Trusted: Lean kernel; Model/Ber.lean is hand-written (validated by correspondence on generated values only); Spec/X690.lean is my transcription of X.690; the general well-formedness walker is run, not proved, on outputs.",
+         "Lean 4 proof of equality with a reference encoder + regenerated schema (decide +kernel) + correspondence + Lean-evaluated walker", "DESIGN.md §5 C04"),
+ "C05": ("Lean theorems C05_partial_*: the content-level round trip for every int64 (parseSigned (intBytes i) = i), every bit length, BOOLEAN, width re-truncation, and error (never panic) outcomes of unsupported constructs in both directions. The full law RoundTrip (structural induction through SEQUENCE/SET/CHOICE member matching) is stated but not proved; it is decided per run by model/code correspondence and a DeepEqual-style oracle over values of all 195 schema types, generated types and boundary integers.",
+         "Trusted: as C04. Partial: the structural round trip is checked on generated values, not proved.",
+         "Lean 4 proof (content level, partial) + correspondence + round-trip oracle", "DESIGN.md §5 C05"),
+ "C16": ("Lean theorem C16 (unmarshal.mutual_induct): for every type description, parameter set and octet string the decoder model returns a value or an error and never reaches a Go index/slice panic (each Go index expression is a partial accessor whose failure is the outcome panic); termination is the acceptance of the well-founded definitions; empty / over-long / zero-length / wrong-tag inputs are errors. Correspondence: outcome class and value of the real Unmarshal under recover() on exhaustive short strings and mutated encodings equals the model's.",
+         "Trusted: Lean kernel; the decoder model is hand-written and validated by correspondence on generated octet strings only; reflect.Set* conversions are modelled.",
+         "Lean 4 proof of panic-freedom over an executable decoder model + correspondence", "DESIGN.md §5 C16"),
 }
 PENDING_REASON = "check not built yet in this revision (work in progress; DESIGN.md plans a Lean model + correspondence check for it)"
 
